@@ -5,7 +5,10 @@
    One case per line: "<field> <op> <args...>".  A base element is a lowercase hex residue; an extension element is
    its base coordinates (to_base_elements order) joined by ':' ("7:1", "7:1:1").  Vectors are comma separated
    ("-" = empty), sizes are decimal.  Output: element, vector ("-" = empty), nat -> decimal, Panic -> "panic",
-   list of polynomials -> polys joined by ';' ("-" when the list is empty). *)
+   list of polynomials -> polys joined by ';' ("-" when the list is empty).
+   Mixed instantiations (extension tokens only; the *_base vectors hold plain base residues):
+     eval_mixed <p_base> <x_ext> | eval_many_mixed <p_base> <xs_ext> | mul_acc_mixed <a_ext> <b_base> <c_ext>
+   = PolynomExt.eval_mixed_quad / _cube etc. applied to zp_ops p and the ExtensibleField vtable of that field. *)
 open Zio
 
 let z = z_of_hex
@@ -46,9 +49,21 @@ let chunks (n : int) (cnt : int) (l : 'a list) : 'a list list =
   if Stdlib.Array.length a <> n * cnt then failwith "flat vector length <> count * N"
   else Stdlib.List.init cnt (fun i -> Stdlib.List.init n (fun j -> a.((i * n) + j)))
 
-(* the op dispatch, written once for every carrier: o = field operations, pe / se = element parser / printer *)
-let eval_with (type a) (o : a FieldOps.coq_FOps) (pe : string -> a) (se : a -> string) (op : string)
-    (args : string list) : string =
+(* base-residue vector of the mixed ops *)
+let bvec (s : string) : BinNums.coq_Z list =
+  if s = "-" then [] else Stdlib.List.rev (Stdlib.List.rev_map z (Stdlib.String.split_on_char ',' s))
+
+(* the three mixed model functions of an extension carrier a over base carrier Z *)
+type 'a mixed = {
+  m_eval : BinNums.coq_Z list -> 'a -> 'a;
+  m_eval_many : BinNums.coq_Z list -> 'a list -> 'a list;
+  m_mul_acc : 'a list -> BinNums.coq_Z list -> 'a -> 'a list Polynom.coq_Result;
+}
+
+(* the op dispatch, written once for every carrier: o = field operations, pe / se = element parser / printer,
+   mx = the mixed instantiations (extension fields only) *)
+let eval_with (type a) (o : a FieldOps.coq_FOps) (mx : a mixed option) (pe : string -> a) (se : a -> string)
+    (op : string) (args : string list) : string =
   (* tail-recursive list helpers: vectors can hold 1025+ elements *)
   let vec (s : string) : a list =
     if s = "-" then [] else Stdlib.List.rev (Stdlib.List.rev_map pe (Stdlib.String.split_on_char ',' s))
@@ -61,6 +76,11 @@ let eval_with (type a) (o : a FieldOps.coq_FOps) (pe : string -> a) (se : a -> s
     | Polynom.Ok [] -> "-"
     | Polynom.Ok l -> join ";" (Stdlib.List.map poly l)
   in
+  match (op, args, mx) with
+  | "eval_mixed", [ p; x ], Some m -> se (m.m_eval (bvec p) (pe x))
+  | "eval_many_mixed", [ p; xs ], Some m -> sv (m.m_eval_many (bvec p) (vec xs))
+  | "mul_acc_mixed", [ a; b; c ], Some m -> res (m.m_mul_acc (vec a) (bvec b) (pe c))
+  | _ -> (
   match (op, args) with
   | "eval", [ p; x ] -> se (Polynom.eval o (vec p) (pe x))
   | "eval_many", [ p; xs ] -> sv (Polynom.eval_many o (vec p) (vec xs))
@@ -86,23 +106,45 @@ let eval_with (type a) (o : a FieldOps.coq_FOps) (pe : string -> a) (se : a -> s
   | "add_in_place", [ a; b ] -> res (Polynom.add_in_place o (vec a) (vec b))
   | "mul_acc", [ a; b; c ] -> res (Polynom.mul_acc o (vec a) (vec b) (pe c))
   | "batch_inversion", [ v ] -> sv (Polynom.batch_inversion o (vec v))
-  | _ -> "driver-error:unknown-op-or-arity:" ^ op
+  | _ -> "driver-error:unknown-op-or-arity:" ^ op)
 
 let o64 = ZpOps.zp_ops ZpOps.coq_P64
 let o62 = ZpOps.zp_ops ZpOps.coq_P62
 let o128 = ZpOps.zp_ops ZpOps.coq_P128
 
+let quad_mixed o i =
+  Some
+    {
+      m_eval = PolynomExt.eval_mixed_quad o i;
+      m_eval_many = PolynomExt.eval_many_mixed_quad o i;
+      m_mul_acc = PolynomExt.mul_acc_mixed_quad o i;
+    }
+
+let cube_mixed o i =
+  Some
+    {
+      m_eval = PolynomExt.eval_mixed_cube o i;
+      m_eval_many = PolynomExt.eval_many_mixed_cube o i;
+      m_mul_acc = PolynomExt.mul_acc_mixed_cube o i;
+    }
+
+let mq64 = quad_mixed o64 (ExtField.f64_x2 o64)
+let mq62 = quad_mixed o62 (ExtField.f62_x2 o62)
+let mq128 = quad_mixed o128 (ExtField.f128_x2 o128)
+let mc64 = cube_mixed o64 (ExtField.f64_x3 o64)
+let mc62 = cube_mixed o62 (ExtField.f62_x3 o62)
+
 let eval = function
   | fld :: op :: args -> (
       match fld with
-      | "f64" -> eval_with o64 pe1 se1 op args
-      | "f62" -> eval_with o62 pe1 se1 op args
-      | "f128" -> eval_with o128 pe1 se1 op args
-      | "q64" -> eval_with PolynomExt.quad64_ops pe2 se2 op args
-      | "q62" -> eval_with PolynomExt.quad62_ops pe2 se2 op args
-      | "q128" -> eval_with PolynomExt.quad128_ops pe2 se2 op args
-      | "c64" -> eval_with PolynomExt.cube64_ops pe3 se3 op args
-      | "c62" -> eval_with PolynomExt.cube62_ops pe3 se3 op args
+      | "f64" -> eval_with o64 None pe1 se1 op args
+      | "f62" -> eval_with o62 None pe1 se1 op args
+      | "f128" -> eval_with o128 None pe1 se1 op args
+      | "q64" -> eval_with PolynomExt.quad64_ops mq64 pe2 se2 op args
+      | "q62" -> eval_with PolynomExt.quad62_ops mq62 pe2 se2 op args
+      | "q128" -> eval_with PolynomExt.quad128_ops mq128 pe2 se2 op args
+      | "c64" -> eval_with PolynomExt.cube64_ops mc64 pe3 se3 op args
+      | "c62" -> eval_with PolynomExt.cube62_ops mc62 pe3 se3 op args
       | f -> "driver-error:unknown-field:" ^ f)
   | _ -> "driver-error:short-line"
 
